@@ -90,10 +90,23 @@ inductive Op where
   | assoc (i : Nat) (changes : List (Nat × Nat))
   deriving DecidableEq, Repr, FromJson, ToJson, Inhabited
 
+/-- a further base class of the LAST class of the chain (multiple inheritance): an attrs or plain class
+    without fields, deriving from `object` or (diamond) from class `via` of the chain -/
+structure Side where
+  cls : Cls
+  /-- derives from chain class `via` instead of `object` -/
+  via : Option Nat
+  /-- the last class lists an undecorated subclass of this class instead of the class itself -/
+  plainAbove : Bool
+  deriving DecidableEq, Repr, FromJson, ToJson, Inhabited
+
 structure Case where
   /-- the root class derives from `Exception` instead of `object` -/
   excBase : Bool
   chain   : List Cls
+  /-- further bases of the last class, and whether they are listed before its chain parent -/
+  side      : List Side
+  sideFirst : Bool
   eqc     : List Nat
   hcode   : List Nat
   keyMap  : List Nat
@@ -230,22 +243,31 @@ def plainFacts (frozenBase : Bool) : Facts :=
   { mixErr := false, hashArg := Option.none, eqOn := false, frozenEff := frozenBase, isExc := false,
     detected := false, cacheOn := false, initOn := false, slotsEff := false }
 
-/-- nodes root-first; `outF` is the decision table used (the code's, or the documented one) -/
-def nodesFrom (outF : Facts → Outcome) (excBase : Bool) :
+/-- nodes root-first; `outF` is the decision table used (the code's, or the documented one).
+    `sideFrozen`: some further base of the last class is frozen.  `cls.__setattr__ is _frozen_setattrs` looks
+    `__setattr__` up along the whole MRO, and no class here defines another `__setattr__`, so a frozen class
+    anywhere among the bases — whatever the order of the bases — makes the class frozen. -/
+def nodesFrom (outF : Facts → Outcome) (excBase : Bool) (sideFrozen : Bool) :
     Nat → Bool → List Field → List Cls → List Node
   | _, _, _, [] => []
-  | k, fz, inh, c :: rest =>
+  | k, fz0, inh, c :: rest =>
+    let fz := fz0 || (rest.isEmpty && sideFrozen)
     if c.api == .plain then
       { k := k, cls := c, isAttrs := false, facts := plainFacts fz, outcome := .untouched,
-        fields := inh } :: nodesFrom outF excBase (k + 1) fz inh rest
+        fields := inh } :: nodesFrom outF excBase sideFrozen (k + 1) fz inh rest
     else
       let f := facts c fz excBase
       let o := outF f
       { k := k, cls := c, isAttrs := true, facts := f, outcome := o,
-        fields := inh ++ c.fields } :: nodesFrom outF excBase (k + 1) f.frozenEff (inh ++ c.fields) rest
+        fields := inh ++ c.fields } :: nodesFrom outF excBase sideFrozen (k + 1) f.frozenEff (inh ++ c.fields) rest
+
+/-- is this further base frozen (by its own decorator; a frozen chain class it derives from already counts
+    through the chain) -/
+def Side.frozen (s : Side) : Bool :=
+  s.cls.api != .plain && truthy (argOf s.cls.api "frozen" s.cls.frozen)
 
 def nodesWith (outF : Facts → Outcome) (c : Case) : List Node :=
-  nodesFrom outF c.excBase 0 false [] c.chain
+  nodesFrom outF c.excBase (c.side.any Side.frozen) 0 false [] c.chain
 
 /-- what `C.__hash__` is after the class statement (and decorator) ran -/
 inductive ClsObs where
